@@ -10,6 +10,7 @@ from fractions import Fraction
 
 from ..core import frac
 from . import _c05cluster
+from . import _c05sexglue
 
 LEVEL = "proof"
 RULE = ("cohorts of 1..8 coverage-file pairs written to a temp dir (sex mix, per-sample depth scale, noise or none, chr / "
@@ -74,7 +75,9 @@ RULE += ("  Round 5 (op ref_cluster): cohorts of 3..8 samples (two k-means clust
          "do_reference(do_cluster=True, min_cluster_size 1 / 2 / 3), corrections off, every cell of the cohort generator; "
          "the k-means membership is observed from the real run (spy on cnvlib.cluster.kmeans) and every cell of every "
          "log2_i / spread_i column is compared with the model's biweight summaries over exactly the member samples; "
-         "non-trivial = at least one cluster column was written")
+         "non-trivial = at least one cluster column was written.  Three (thorough: eight) further cohorts with inferred "
+         "sexes, a female sample and header-only antitarget files (tag sexglue-*); on every `reference` cohort the sexes "
+         "dictionary do_reference hands to combine_probes (spy) is compared with the model's resolveSexes")
 ASSUMPTIONS.append("round 5: the per-cluster columns ARE modelled (Model/ReferenceExt5Cluster.lean, op ref_cluster) with the "
                    "k-means membership (PCA, whitening, scipy kmeans2 under the fixed numpy seed) as a parameter observed "
                    "from the real run; corrections off")
@@ -352,7 +355,9 @@ def gen_cases(rng, tier):
     cases += [_cohort_corr(r4, j) for j in range({"quick": 20, "thorough": 80, "search": 30}[tier])]
     # round 5 (own stream, drawn last): the cluster columns of `reference --cluster`, membership observed
     r5 = random.Random(rng.getrandbits(32))
-    cases += _c05cluster.gen(r5, _cohort, {"quick": 10, "thorough": 30, "search": 12}[tier])
+    cases += _c05cluster.gen(r5, _cohort, {"quick": 10, "thorough": 24, "search": 12}[tier])
+    # round 5: inferred sexes with header-only antitarget files (the per-sample override of do_reference)
+    cases += _c05sexglue.gen(r5, _cohort, {"quick": 3, "thorough": 8, "search": 4}[tier])
     return cases
 
 
@@ -751,6 +756,8 @@ def run_impl(case):
         if op == "ref_cluster":
             spy = _c05cluster.KmeansSpy()
             quiet = spy.wrap(quiet)
+        sexspy = _c05sexglue.SexesSpy()
+        quiet = sexspy.wrap(quiet)
         if cli:
             fa = fa_corr
             if cli["fasta"] and not corr:
@@ -806,6 +813,8 @@ def run_impl(case):
             out["cluster"] = {"cols": cl, "dev": dev}
         if spy is not None:
             out["cluster_full"] = _c05cluster.collect(ref, spy)
+        if sexspy.result() is not None:
+            out["sexes_real"] = sexspy.result()
         return out
     finally:
         shutil.rmtree(d, ignore_errors=True)
@@ -875,6 +884,7 @@ def judge(case, impl, resp):
         if model_err:
             return ["reject_differing_bins"], [], None
         spec = list(resp.get("spec") or [])
+        spec += _c05sexglue.clause(impl, resp)
         rows = impl["rows"]
         dis = []
         cl = impl.get("cluster")
